@@ -15,7 +15,9 @@ The exchange model builds its execution reports / cancel rejects itself (asyncfi
 import copy
 import enum
 import hashlib
+import re
 from collections import deque, namedtuple
+from decimal import Decimal
 
 from asyncfix import FIXMessage
 from asyncfix.protocol.common import FOrdStatus
@@ -41,7 +43,13 @@ ALL_ROOTS = ROOTS + CHAIN_ROOTS
 CFGS = [("lots", 2.0, 1.0), ("frac", 1.0, 0.5),
         # same as "lots", but a Replaced report carries OrderQty / Price only when the replace changed them
         # (both are optional in an ExecutionReport; the library's own comments allow their absence)
-        ("lots_sparse_replaced", 2.0, 1.0)]
+        ("lots_sparse_replaced", 2.0, 1.0),
+        # values python prints with an exponent (< 1e-4 with more than 8 decimals, >= 1e16): the exchange books
+        # what is ON THE WIRE (tags 44 / 38 of the request, parsed), so a lossy literal shows as a divergence
+        ("exp_values", 1.2345678901e-05, 1.2345678901e-05 / 2,
+         {"px": 1.23456789e-05, "rep_px": (3.3e16, 1.23456789e-05)})]
+# configurations explored only by the phases that name them
+SPECIAL_CFGS = (3,)
 # presentation only (rotated by VERIF_SEED)
 PRES = [
     {"px": 100.0, "ticker": "MSFT", "side": "1", "acct": "A1"},
@@ -55,12 +63,14 @@ TIERS = {
         {"name": "wide", "depth": 12, "max_req": 2, "max_inflight": None},
         {"name": "deep", "depth": 18, "max_req": 3, "max_inflight": 3},
         {"name": "chain", "kind": "chain", "prefix": 3, "ids": 13, "cfgs": (0,)},
+        {"name": "exp_values", "depth": 13, "max_req": 2, "max_inflight": 2, "cfgs": (3,), "roots": (0,)},
     ],
     "thorough": [
         {"name": "wide", "depth": 16, "max_req": 2, "max_inflight": None},
         {"name": "deep4", "depth": 22, "max_req": 3, "max_inflight": 4},
         {"name": "deep", "depth": 26, "max_req": 4, "max_inflight": 3},
         {"name": "chain", "kind": "chain", "prefix": 4, "ids": 14, "cfgs": (0, 1)},
+        {"name": "exp_values", "depth": 18, "max_req": 3, "max_inflight": 3, "cfgs": (3,), "roots": (0, 1)},
     ],
 }
 
@@ -81,6 +91,8 @@ CLAUSES = {
     "orig": "the request refers to the ClOrdID under which the order is currently live at the exchange",
     "one_outstanding": "at most one request is outstanding at a time",
     "status_enum": "the status is always a member of the status enum",
+    "wire": "all positive quantities and prices: Price (44) / OrderQty (38) of a request are FIX number literals "
+            "(digits with an optional decimal point), which is what the exchange books",
 }
 
 # --------------------------------------------------------------------------- exchange model R8
@@ -108,6 +120,20 @@ def reported_status(e):
     return max(c, key=PREC.__getitem__)
 
 
+def num(x):
+    """Float as FIX number literal (positional notation, lossless)."""
+    r = repr(float(x))
+    return format(Decimal(r), "f") if ("e" in r or "E" in r) else r
+
+
+FIX_NUM = re.compile(r"-?(\d+(\.\d*)?|\.\d+)\Z")
+
+
+def wire_check(ev, px, qty):
+    bad = {t: val for t, val in (("44", px), ("38", qty)) if val is not None and not FIX_NUM.match(val)}
+    return [("wire", {"event": ev, "observed": bad, "expected": "digits with an optional decimal point"})] if bad else []
+
+
 def leaves_of(e):
     return 0.0 if e.status in FINISHED else e.qty - e.cum
 
@@ -118,10 +144,10 @@ def exec_report(e, env, exectype, clord, orig=None, last=None, ordstatus=None, a
     if orig is not None:
         t.append((41, orig))
     t += [(37, "X1"), (150, exectype), (39, ordstatus if ordstatus is not None else reported_status(e)),
-          (55, env["ticker"]), (54, env["side"]), (38, str(e.qty)), (44, str(e.px))]
+          (55, env["ticker"]), (54, env["side"]), (38, num(e.qty)), (44, num(e.px))]
     if last is not None:
-        t += [(32, str(last)), (31, str(e.px))]
-    t += [(151, str(leaves_of(e))), (14, str(e.cum)), (6, str(e.px if e.cum > 0 else 0.0))]
+        t += [(32, num(last)), (31, num(e.px))]
+    t += [(151, num(leaves_of(e))), (14, num(e.cum)), (6, num(e.px if e.cum > 0 else 0.0))]
     if omit:
         t = [x for x in t if x[0] not in omit]
     return ("8", tuple(t), answers)
@@ -306,6 +332,9 @@ def rep_target(o, ev, env):
     """(price, qty) argument of replace_req for a replace flavour, or None if it would be no change."""
     unit = env["unit"]
     if ev == "c:rep_px":
+        for val in env.get("rep_px") or ():
+            if val != o.price:
+                return (val, float("nan"))
         return (o.price + 1.0, float("nan"))
     if ev == "c:rep_up":
         return (float("nan"), o.qty + unit)
@@ -378,6 +407,8 @@ def send_probe(n, ev, env, cans):
         return None, [("builder", {"event": ev, "observed": f"request unreadable: {exc(ex)}"})]
     if mt != kind:
         v.append(("builder", {"event": ev, "observed": f"message type {mt!r}", "expected": kind}))
+    if kind == "G":
+        v += wire_check(ev, px, qty)
     if cid is None or cid in n.h.used:
         v.append(("fresh", {"event": ev, "observed": cid, "used_before": list(n.h.used)}))
     if not good_id(env["root"], cid):
@@ -406,6 +437,9 @@ def step(n, ev, env):
         except Exception as ex:
             return None, [("builder", {"event": ev, "observed": f"new_req() on a just created order raised {exc(ex)}"})]
         h = n.h._replace(sent_new=True, used=n.h.used + (cid,))
+        w = wire_check(ev, px, qty)
+        if w:
+            return None, w
         return Node(o, n.e, n.req + (("D", cid, None, px, qty),), n.rep, h, n.ann, n.depth + 1), []
     if ev == "c:consume":
         if not n.rep:
@@ -522,6 +556,9 @@ def cause_class(n, clause, detail, env):
         return "two_digit_counter"  # the order has already drawn nine or more ClOrdIDs
     if clause == "root":
         return "root_shape:" + shape
+    if env["cfg"] == "exp_values" and (clause == "wire" or (clause == "converge" and detail.get("field") in
+                                                          ("cum_qty", "leaves_qty", "price", "qty"))):
+        return "value_printed_with_exponent"
     if n.h.last_reject:
         return f"after_{n.h.last_reject}_reject"
     if n.h.repl_susp:
@@ -562,8 +599,10 @@ def make_violation(n, path, clause, detail, env):
 # --------------------------------------------------------------------------- BFS (one worker item)
 def make_env(root_i, cfg_i, pres, item=0, max_inflight=10 ** 6):
     root, shape = ALL_ROOTS[root_i]
-    cname, qty, unit = CFGS[cfg_i]
+    cname, qty, unit = CFGS[cfg_i][:3]
     env = dict(pres)
+    if len(CFGS[cfg_i]) > 3:
+        env.update(CFGS[cfg_i][3])
     env.update(root=root, shape=shape, cfg=cname, qty=qty, unit=unit, pres=dict(pres), item=item,
                max_inflight=max_inflight, sparse=cname.endswith("sparse_replaced"))
     return env
@@ -829,8 +868,8 @@ def run(ctx):
                     for first in CYCLE_KINDS:
                         items.append((len(items), phase_i, root_i, cfg_i, first))
             continue
-        for cfg_i in range(len(CFGS)):
-            for root_i in range(len(ROOTS)):
+        for cfg_i in phases[phase_i].get("cfgs") or [c for c in range(len(CFGS)) if c not in SPECIAL_CFGS]:
+            for root_i in phases[phase_i].get("roots") or range(len(ROOTS)):
                 items.append((len(items), phase_i, root_i, cfg_i))
     ctx.rule = ("BFS over all interleavings of client actions on the real FIXNewOrderSingle (new, cancel, replace "
                 "price / qty up / qty down / qty below the fill unit whenever can_*() is true, consume next report) "
